@@ -1,8 +1,8 @@
 package rules
 
 import (
-	"go/token"
 	"fmt"
+	"go/token"
 
 	"golang.org/x/tools/go/ssa"
 
@@ -97,15 +97,14 @@ func (c *Ctx) checkContentUnaltered() {
 		r.Func(fk(fn))
 		for _, site := range core.CallsTo(fn, save) {
 			args := core.CallArgs(site.Common())
-			msgAlloc, ok := core.Strip(args[1]).(*ssa.Alloc)
+			saved, ok := c.literalOf(args[1])
 			if !ok {
 				r.Fail("C02.4-content-unaltered", fk(fn)+": message literal", c.pos(site), "message passed to Save is not a literal: undecided")
 				continue
 			}
-			saved := literalFields(msgAlloc)
-			// the MsgServerData literal created in the same function
+			// the MsgServerData literal created in the same function, or in a sibling phase of it
 			var dataAlloc *ssa.Alloc
-			core.AllInstrs(fn, func(in ssa.Instruction) {
+			c.regionInstrs(c.phaseRoot(fn), func(_ *ssa.Function, in ssa.Instruction) {
 				if a, ok := in.(*ssa.Alloc); ok && isPtrToNamed(a.Type(), "MsgServerData") {
 					dataAlloc = a
 				}
@@ -116,7 +115,7 @@ func (c *Ctx) checkContentUnaltered() {
 			}
 			sent := literalFields(dataAlloc)
 			for _, f := range []string{"Head", "Content"} {
-				same := saved[f] != nil && sent[f] != nil && core.Strip(saved[f]) == core.Strip(sent[f])
+				same := saved[f] != nil && sent[f] != nil && c.rootValue(saved[f]) == c.rootValue(sent[f])
 				r.Check(same, "C02.4-content-unaltered", fmt.Sprintf("%s: broadcast %s is the value given to Save", fk(fn), f), c.pos(site), "", "the "+f+" delivered to recipients is not the value that was stored")
 			}
 			// From/author: both derive from the same request field / parameter family
